@@ -181,8 +181,11 @@ def merge(paths_idx, suffix_from, suffix_to, total):
 def suite_cache_key(suite, seed, tier, count):
     return file_hash(repo_files() + harness_files() + model_files())[:24] + f"-{suite}-{seed}-{tier}-{count}"
 
-def run_suite(suite, seed, tier, count, extra_cases=None, timeout=1500, profile="debug", use_cache=True):
+def run_suite(suite, seed, tier, count, extra_cases=None, timeout=None, profile="debug", use_cache=True):
     """Generate the suite's cases, run implementation and model, return (cases, impl, model) line lists."""
+    if timeout is None:
+        # an implementation that hangs must not stall the check for long: unfinished cases read "<missing>"
+        timeout = 420 if tier == "quick" else 3000
     key = suite_cache_key(suite, seed, tier, count) + ("-" + profile if profile != "debug" else "")
     cdir = os.path.join(BUILD, "cache", key)
     done = os.path.join(cdir, "done.json")
